@@ -789,3 +789,27 @@ def c17b_run(chk):
 
 def c17b_replay(path):
     return replay_prop("C17", path)
+
+
+# ---------------------------------------------------------------------------
+# C16 (allocation failure): templates for tools/props/C16.py
+
+
+def c16_templates(tier):
+    """fault-enumeration templates: (format, nbits) ops take the plan string of the
+    allocation requests they make; the first resize of each script is given a
+    table to work with (a failed first resize followed by use is outside the
+    hash table's documented domain), except in the retry template."""
+    R = lambda n, f: ("resize 0 %d %s {}" % (n, f), 1)
+    S = ("shrink 0 {}", 1)
+    finds = ["find 0 %d n" % k for k in (1, 2, 3, 4, 9)]
+    t1 = (["resize 0 2 1 1"] + ["ins 0 %d %d" % (k, k) for k in (1, 2, 3, 4)]
+          + [R(8, "-")] + finds[:2] + [R(16, "2")] + finds + [S] + finds[:3]
+          + ["erase 0 2", R(32, "1"), "find 0 1 n", S, "rehash 0"] + finds + ["fconst 0 -1", "clear 0 1",
+             "resize 0 4 1 1", "ins 0 1 1", "find 0 1 n", "clear 0 1"])
+    t2 = (["resize 0 2 1 0", "resize 0 2 1 1"] + ["ins 0 %d %d" % (k, k) for k in (1, 2, 3)]
+          + [R(4, "-"), S, R(3, "2"), R(64, "-"), S] + finds + ["foreach 0 -1 0", "clear 0 1"])
+    t3 = (["resize 0 1 1 1"] + ["ins 0 %d %d" % (k, k) for k in (5, 6)]
+          + [R(2, "-"), "ins 0 7 7", R(4, "-"), "find 0 5 n", R(2, "-"), S, "find 0 6 n", "find 0 7 n", "clear 0 1"])
+    thms = ["Cstl.Hash.resize_exact", "Cstl.Hash.shrink_exact", "Cstl.Hash.run_exact"]
+    return [t1, t2, t3], (lambda sc: "C03"), thms
